@@ -51,6 +51,7 @@ VARIABLES
   rdata,      \* [O -> 0..MaxData]   readable units (bytes / queued connections / datagrams)
   peer,       \* [O -> "open" | "closed" | "reset"]
   wfull,      \* [O -> BOOLEAN]      no room to write
+  rcount,     \* [O -> Nat]          units read so far (the next unit read carries token rcount + 1)
   yanked,     \* [O -> BOOLEAN]      the descriptor was replaced underneath the object (epoll_ctl on it fails)
   tarmed,     \* [T -> -1 | ticks left]
   texp,       \* [T -> BOOLEAN]      timerfd has an unread expiration
@@ -63,14 +64,14 @@ VARIABLES
   nop, ncmd, npost, needSample, drain, dpolls,
   rpin, rpdone,   \* class "runpending": inside / after the RunPending call of the drain phase
   \* --- monitor ---
-  kinds, cls, lim, base, ost, ops, csnap, tm, posted, ranp, anomaly, bad,
+  kinds, cls, lim, base, ost, ops, csnap, tm, posted, ranp, anomaly, rnext, bad,
   \* --- generation ---
   hist, done
 
 libvars  == <<interest, rop, wop, oclosed, pending, dispatched, posts, tst, tcan, tint, trep, thow, ohow>>
-envvars  == <<rdata, peer, wfull, yanked, tarmed, texp, evfd, rdy, now>>
+envvars  == <<rdata, rcount, peer, wfull, yanked, tarmed, texp, evfd, rdy, now>>
 ctlvars  == <<stack, inpoll, batch, bi, bphase, pq, nop, ncmd, npost, needSample, drain, dpolls>>
-monvars  == <<kinds, cls, lim, base, ost, ops, csnap, tm, posted, ranp, anomaly, bad>>
+monvars  == <<kinds, cls, lim, base, ost, ops, csnap, tm, posted, ranp, anomaly, rnext, bad>>
 vars     == <<libvars, envvars, ctlvars, rpin, rpdone, monvars, hist, done>>
 
 Mon == INSTANCE ReactorMon
@@ -82,7 +83,7 @@ TEnt(t) == NO + t
 
 Z == [ev |-> "", o |-> 0, op |-> 0, dir |-> "", api |-> "", err |-> "", n |-> 0, depth |-> 0,
       t |-> 0, d |-> 0, ts |-> 0, pending |-> 0, posted |-> 0, dispatched |-> 0, sched |-> <<>>,
-      h |-> 0, cls |-> "", lim |-> 0, kinds |-> <<>>, note |-> ""]
+      h |-> 0, cls |-> "", lim |-> 0, kinds |-> <<>>, note |-> "", tok |-> 0]
 
 \* top-level steps of the model's drain phase are marked: the driver has its own
 \* drain phase (what handlers do during the drain phase is part of the script)
@@ -100,7 +101,7 @@ Init ==
   /\ trep = [t \in T |-> 0]
   /\ thow = [t \in T |-> "none"] /\ ohow = [o \in O |-> [R |-> "none", W |-> "none"]]
   /\ rdata = [o \in O |-> 0] /\ peer = [o \in O |-> "open"] /\ wfull = [o \in O |-> FALSE]
-  /\ yanked = [o \in O |-> FALSE]
+  /\ yanked = [o \in O |-> FALSE] /\ rcount = [o \in O |-> 0]
   /\ tarmed = [t \in T |-> -1] /\ texp = [t \in T |-> FALSE] /\ evfd = FALSE /\ rdy = <<>> /\ now = 0
   /\ stack = <<>> /\ inpoll = FALSE /\ batch = <<>> /\ bi = 1 /\ bphase = "R" /\ pq = <<>>
   /\ nop = 0 /\ ncmd = 0 /\ npost = 0 /\ needSample = FALSE /\ drain = FALSE /\ dpolls = 0
@@ -108,6 +109,7 @@ Init ==
   /\ kinds = Kinds /\ cls = Class /\ lim = Limit /\ base = 0
   /\ ost = [o \in O |-> "open"] /\ ops = <<>> /\ csnap = <<>>
   /\ tm = [t \in T |-> Mon!IdleTimer] /\ posted = {} /\ ranp = "" /\ anomaly = "" /\ bad = ""
+  /\ rnext = [o \in O |-> 1]
   /\ hist = <<ResetEv>> /\ done = FALSE
 
 \* ------------------------------------------------------------------ kernel
@@ -226,7 +228,7 @@ Close(o) ==
   /\ ohow' = [ohow EXCEPT ![o] = [R |-> "none", W |-> "none"]]
   /\ stack' = Push(<<[Fr("closeE", 0) EXCEPT !.o = o]>>)
   /\ Emit([Z EXCEPT !.ev = "CloseB", !.o = o])
-  /\ UNCHANGED <<rop, wop, dispatched, posts, tst, tcan, tint, trep, thow, rdata, peer, wfull, yanked, tarmed, texp, evfd, now,
+  /\ UNCHANGED <<rop, wop, dispatched, posts, tst, tcan, tint, trep, thow, rdata, rcount, peer, wfull, yanked, tarmed, texp, evfd, now,
                  inpoll, batch, bi, bphase, pq, nop, npost, drain, dpolls, done>>
 
 Post ==
@@ -237,7 +239,7 @@ Post ==
   /\ evfd' = TRUE /\ rdy' = AddRdy(rdy, 0)
   /\ stack' = Push(<<>>)
   /\ Emit([Z EXCEPT !.ev = "PostE", !.h = npost + 1, !.err = "nil"])
-  /\ UNCHANGED <<interest, rop, wop, oclosed, dispatched, tst, tcan, tint, trep, thow, ohow, rdata, peer, wfull, yanked, tarmed, texp, now,
+  /\ UNCHANGED <<interest, rop, wop, oclosed, dispatched, tst, tcan, tint, trep, thow, ohow, rdata, rcount, peer, wfull, yanked, tarmed, texp, now,
                  inpoll, batch, bi, bphase, pq, nop, drain, dpolls, done>>
 
 \* internal.Timer.Unset on timer t, as an effect on (tint, pending, tarmed, texp, rdy)
@@ -269,7 +271,7 @@ TSched(t, rep, d) ==
        ELSE /\ UNCHANGED <<tcan, tint, pending, tarmed, texp, rdy, tst, trep, thow>>
             /\ stack' = Push(<<[Fr("tschedE", t) EXCEPT !.d = "cancelled"]>>)
   /\ Emit([Z EXCEPT !.ev = "TSchedB", !.t = t, !.n = rep, !.d = d * TickUs, !.ts = now * TickUs])
-  /\ UNCHANGED <<interest, rop, wop, oclosed, dispatched, posts, ohow, rdata, peer, wfull, yanked, evfd, now,
+  /\ UNCHANGED <<interest, rop, wop, oclosed, dispatched, posts, ohow, rdata, rcount, peer, wfull, yanked, evfd, now,
                  inpoll, batch, bi, bphase, pq, nop, npost, drain, dpolls, done>>
 
 TCancel(t) ==
@@ -281,7 +283,7 @@ TCancel(t) ==
        ELSE tcan' = [tcan EXCEPT ![t] = TRUE] /\ tst' = [tst EXCEPT ![t] = "ready"]
   /\ stack' = Push(<<>>)
   /\ Emit([Z EXCEPT !.ev = "TCancelE", !.t = t, !.err = "nil"])
-  /\ UNCHANGED <<interest, rop, wop, oclosed, dispatched, posts, trep, ohow, rdata, peer, wfull, yanked, evfd, now,
+  /\ UNCHANGED <<interest, rop, wop, oclosed, dispatched, posts, trep, ohow, rdata, rcount, peer, wfull, yanked, evfd, now,
                  inpoll, batch, bi, bphase, pq, nop, npost, drain, dpolls, done>>
 
 TClose(t) ==
@@ -291,7 +293,7 @@ TClose(t) ==
   /\ tst' = [tst EXCEPT ![t] = "closed"]
   /\ stack' = Push(<<>>)
   /\ Emit([Z EXCEPT !.ev = "TCloseE", !.t = t, !.err = "nil"])
-  /\ UNCHANGED <<interest, rop, wop, oclosed, dispatched, posts, tcan, trep, ohow, rdata, peer, wfull, yanked, evfd, now,
+  /\ UNCHANGED <<interest, rop, wop, oclosed, dispatched, posts, tcan, trep, ohow, rdata, rcount, peer, wfull, yanked, evfd, now,
                  inpoll, batch, bi, bphase, pq, nop, npost, drain, dpolls, done>>
 
 \* a user callback returns
@@ -310,10 +312,11 @@ Return ==
 
 \* ------------------------------------------------------------------ automatic steps (library code running)
 \* complete operation `op` of object o now: invoke the user callback
-Complete(op, err, inl) ==
+Complete(op, err, inl, tok) ==
   /\ stack' = <<CbFrame("op", op, inl)>> \o Rest
   /\ dispatched' = IF inl THEN dispatched + 1 ELSE dispatched
-  /\ Emit([Z EXCEPT !.ev = "CbB", !.op = op, !.err = err, !.n = IF err = "nil" THEN 1 ELSE 0, !.depth = Depth])
+  /\ Emit([Z EXCEPT !.ev = "CbB", !.op = op, !.err = err, !.n = IF err = "nil" THEN 1 ELSE 0, !.depth = Depth,
+                     !.tok = tok])
 
 \* asyncRead/asyncWrite (first = TRUE) or reactor.onRead/onWrite retry (first = FALSE)
 DoTry ==
@@ -327,29 +330,30 @@ DoTry ==
      /\ rop' = IF d = "R" /\ Top.first THEN [rop EXCEPT ![o] = op] ELSE rop
      /\ wop' = IF d = "W" /\ Top.first THEN [wop EXCEPT ![o] = op] ELSE wop
      /\ peer' = IF res = "data" /\ d = "W" /\ peer[o] = "closed" THEN [peer EXCEPT ![o] = "reset"] ELSE peer
+     /\ rcount' = IF res = "data" /\ d = "R" THEN [rcount EXCEPT ![o] = @ + 1] ELSE rcount
      /\ IF res = "data" THEN
-            /\ Complete(op, "nil", inl)
+            /\ Complete(op, "nil", inl, IF d = "R" THEN rcount[o] + 1 ELSE 0)
             /\ rdata' = IF d = "R" THEN [rdata EXCEPT ![o] = @ - 1]
                          ELSE IF peer[o] = "closed" THEN [rdata EXCEPT ![o] = 0] ELSE rdata
             /\ rdy' = rdy
             /\ UNCHANGED <<interest, pending, ohow>>
         ELSE IF res \in {"eof", "errno"} THEN
-            /\ Complete(op, res, inl) /\ UNCHANGED <<rdata, rdy, interest, pending, ohow>>
+            /\ Complete(op, res, inl, 0) /\ UNCHANGED <<rdata, rcount, rdy, interest, pending, ohow>>
         ELSE \* would block, or at the dispatch limit: scheduleRead / scheduleWrite
           IF oclosed[o] THEN
-            /\ Complete(op, "eof", inl) /\ UNCHANGED <<rdata, rdy, interest, pending, ohow>>
+            /\ Complete(op, "eof", inl, 0) /\ UNCHANGED <<rdata, rcount, rdy, interest, pending, ohow>>
           ELSE IF Kinds[o] = "reg" \/ yanked[o] THEN    \* epoll_ctl fails (EPERM)
-            /\ Complete(op, "errno", inl)
+            /\ Complete(op, "errno", inl, 0)
             /\ interest' = IF BUG_RegLeak THEN [interest EXCEPT ![o] = @ \cup {d}] ELSE interest
             /\ pending' = IF BUG_RegLeak /\ d \notin interest[o] THEN pending + 1 ELSE pending
-            /\ UNCHANGED <<rdata, rdy, ohow>>
+            /\ UNCHANGED <<rdata, rcount, rdy, ohow>>
           ELSE
             /\ interest' = [interest EXCEPT ![o] = @ \cup {d}]
             /\ pending' = IF d \in interest[o] THEN pending ELSE pending + 1
             /\ rdy' = RdyObj(rdy, o, interest[o] \cup {d}, OMask(o))
             /\ ohow' = [ohow EXCEPT ![o][d] = IF ~Top.first THEN "retry"
                                                 ELSE IF dispatched < Limit THEN "first" ELSE "limit"]
-            /\ stack' = Rest /\ UNCHANGED <<rdata, dispatched>> /\ NoEvent
+            /\ stack' = Rest /\ UNCHANGED <<rdata, rcount, dispatched>> /\ NoEvent
   /\ UNCHANGED <<oclosed, posts, tst, tcan, tint, trep, thow, wfull, yanked, tarmed, texp, evfd, now,
                  inpoll, batch, bi, bphase, pq, nop, ncmd, npost, needSample, drain, dpolls, done>>
 
@@ -376,7 +380,7 @@ DoCancel ==
      ELSE
         /\ stack' = <<CancelFrame(o, IF ph = "R" THEN "W" ELSE "E")>> \o Rest /\ NoEvent
         /\ UNCHANGED <<interest, pending, rdy, dispatched, ohow>>
-  /\ UNCHANGED <<rop, wop, oclosed, posts, tst, tcan, tint, trep, thow, rdata, peer, wfull, yanked, tarmed, texp, evfd, now,
+  /\ UNCHANGED <<rop, wop, oclosed, posts, tst, tcan, tint, trep, thow, rdata, rcount, peer, wfull, yanked, tarmed, texp, evfd, now,
                  inpoll, batch, bi, bphase, pq, nop, ncmd, npost, needSample, drain, dpolls, done>>
 
 DoCloseE ==
@@ -400,7 +404,7 @@ DoRearm ==
      ELSE IF tst[t] = "ready" /\ trep[t] > 0 THEN ArmT(t, trep[t])
      ELSE UNCHANGED <<tcan, tint, pending, tarmed, texp, rdy, tst, thow>>
   /\ stack' = Rest /\ NoEvent
-  /\ UNCHANGED <<interest, rop, wop, oclosed, dispatched, posts, trep, ohow, rdata, peer, wfull, yanked, evfd, now,
+  /\ UNCHANGED <<interest, rop, wop, oclosed, dispatched, posts, trep, ohow, rdata, rcount, peer, wfull, yanked, evfd, now,
                  inpoll, batch, bi, bphase, pq, nop, ncmd, npost, needSample, drain, dpolls, done>>
 
 \* poller.dispatch(): run the posted handlers one after the other
@@ -430,7 +434,7 @@ Poll ==
   /\ inpoll' = TRUE /\ batch' = BatchOf /\ bi' = 1 /\ bphase' = "R"
   /\ rdy' = [k \in DOMAIN BatchOf |-> BatchOf[k].x]
   /\ IF RP THEN NoEvent ELSE Emit([Z EXCEPT !.ev = "PollB"])
-  /\ UNCHANGED <<libvars, rdata, peer, wfull, yanked, tarmed, texp, evfd, now, stack, pq, nop, npost, needSample, drain, done>>
+  /\ UNCHANGED <<libvars, rdata, rcount, peer, wfull, yanked, tarmed, texp, evfd, now, stack, pq, nop, npost, needSample, drain, done>>
 
 Fires(m, d, ints) ==
   IF d = "R" THEN "R" \in ints /\ (IF BUG_HupOnly THEN "IN" \in m ELSE m \cap {"IN", "HUP", "ERR"} # {})
@@ -449,7 +453,7 @@ PollStep ==
           /\ stack' = <<Fr("postloop", 0)>>
           /\ bi' = bi + 1 /\ NoEvent
           /\ UNCHANGED <<interest, rop, wop, oclosed, pending, dispatched, tst, tcan, tint, trep, thow, ohow,
-                         rdata, peer, wfull, yanked, tarmed, texp, rdy, now, inpoll, batch, bphase, needSample>>
+                         rdata, rcount, peer, wfull, yanked, tarmed, texp, rdy, now, inpoll, batch, bphase, needSample>>
        ELSE IF x <= NO THEN
           /\ IF Fires(m, bphase, interest[x]) THEN
                 /\ DelDir(x, bphase)
@@ -458,7 +462,7 @@ PollStep ==
           /\ IF bphase = "R" THEN bphase' = "W" /\ bi' = bi ELSE bphase' = "R" /\ bi' = bi + 1
           /\ NoEvent
           /\ UNCHANGED <<rop, wop, oclosed, dispatched, posts, tst, tcan, tint, trep, thow,
-                         rdata, peer, wfull, yanked, tarmed, texp, evfd, now, inpoll, batch, pq, needSample>>
+                         rdata, rcount, peer, wfull, yanked, tarmed, texp, evfd, now, inpoll, batch, pq, needSample>>
        ELSE LET t == x - NO IN
           /\ bi' = bi + 1
           /\ IF tint[t] THEN
@@ -476,7 +480,7 @@ PollStep ==
                    /\ Emit([Z EXCEPT !.ev = "TFireB", !.t = t, !.ts = now * TickUs, !.depth = 1])
              ELSE NoEvent /\ UNCHANGED <<tint, pending, texp, tst, stack, rdy, thow>>
           /\ UNCHANGED <<interest, rop, wop, oclosed, dispatched, posts, tcan, trep, ohow,
-                         rdata, peer, wfull, yanked, tarmed, evfd, now, inpoll, batch, bphase, pq, needSample>>
+                         rdata, rcount, peer, wfull, yanked, tarmed, evfd, now, inpoll, batch, bphase, pq, needSample>>
   /\ UNCHANGED <<nop, ncmd, npost, drain, dpolls, done>>
 
 Sample ==
@@ -525,7 +529,7 @@ EnvStep(what, o) ==
   /\ ncmd' = IF drain THEN ncmd ELSE ncmd + 1
   /\ needSample' = TRUE
   /\ Emit([Z EXCEPT !.ev = "Env", !.api = what, !.o = o, !.n = 1])
-  /\ UNCHANGED <<libvars, tarmed, texp, evfd, now, stack, inpoll, batch, bi, bphase, pq, nop, npost, drain, dpolls, done>>
+  /\ UNCHANGED <<libvars, rcount, tarmed, texp, evfd, now, stack, inpoll, batch, bi, bphase, pq, nop, npost, drain, dpolls, done>>
 
 Tick ==
   /\ (AtTop /\ ncmd < MaxCmds /\ "tick" \in Envs /\ now < MaxTick)
@@ -540,7 +544,7 @@ Tick ==
   /\ ncmd' = IF drain THEN ncmd ELSE ncmd + 1
   /\ needSample' = ~(RP /\ rpin)
   /\ Emit([Z EXCEPT !.ev = "Env", !.api = "tick", !.n = 1])
-  /\ UNCHANGED <<libvars, rdata, peer, wfull, yanked, evfd, stack, inpoll, batch, bi, bphase, pq, nop, npost, drain, dpolls, done>>
+  /\ UNCHANGED <<libvars, rdata, rcount, peer, wfull, yanked, evfd, stack, inpoll, batch, bi, bphase, pq, nop, npost, drain, dpolls, done>>
 
 \* ------------------------------------------------------------------ drain and end of scenario
 \* The driver makes every parked operation completable, polls until its own
